@@ -10,6 +10,7 @@
      CW  <msize> <dst> <repl> <src>         -> <out> | NONE                utf8.CorrectWith
      GV  <src>                              -> true|false                  utf8.Validate
      AQ  <buf> <src>                        -> <out>                       ast.quoteString
+     JS  <unicode_errors> <body>            -> ok <out> | err              jitdec `,string` string field (body between the outer quotes)
      RW  <src>                              -> true|false <first bad | ->  reference well-formedness (spec)
      RR  <repl> <src>                       -> <out>                       reference replacement (spec)
    <ws>: a = AVX2 block widths [32;16], s = SSE [16], 0 = scalar []                                  *)
@@ -70,6 +71,10 @@ let () =
        | None -> pr "NONE\n")
     | ["GV"; src] -> pr "%b\n" (Utf8.go_validate (bx src))
     | ["AQ"; buf; src] -> pr "%s\n" (hx (AstQuote.quote_string (bx buf) (bx src)))
+    | ["JS"; ue; body] ->
+      (match JitString.jit_unquote_twice (ue = "1") (bx body) with
+       | Some o -> pr "ok\t%s\n" (hx o)
+       | None -> pr "err\n")
     | ["RW"; src] ->
       let s = bx src in
       pr "%b\t%s\n" (RefUtf8.wf s)
